@@ -50,6 +50,11 @@ func TestC07_Fallback(t *testing.T) {
 		if rapid.Bool().Draw(t, "open-filters") {
 			opt.AllPlatforms, opt.PipelineOnly, opt.Platforms, opt.NoCrossPlatform = true, false, nil, false
 		}
+		smallLimit := rapid.IntRange(0, 2).Draw(t, "small-limit") == 0
+		if smallLimit {
+			// the never-left-empty claim holds for every limit: try the ones that truncate
+			opt.Limit = rapid.SampledFrom([]int{1, 1, 2, 3}).Draw(t, "limit")
+		}
 		off := opt
 		off.UseFuzzy = false
 		rOff := db.SearchUniversal(q, off)
@@ -59,6 +64,9 @@ func TestC07_Fallback(t *testing.T) {
 			labels = append(labels, "threshold-set")
 		}
 		nontrivial := false
+		if smallLimit {
+			labels = append(labels, "small-limit")
+		}
 		if len(rOff) > 0 {
 			a, b := rank(db, rOff), rank(db, rOn)
 			if !rankEq(a, b) {
@@ -99,10 +107,15 @@ func TestC07_Fallback(t *testing.T) {
 				nontrivial = true
 				labels = append(labels, "fallback-answered")
 			}
-			if opt.FuzzyThreshold == 0 && opt.AllPlatforms && !opt.PipelineOnly && len(rOn) == 0 && q != "" {
+			if opt.FuzzyThreshold == 0 && len(rOn) == 0 && q != "" {
 				for i := range cmds {
+					// certainly eligible: all platforms requested or no platform declared, and a
+					// pipeline command when only pipelines are wanted
+					if !(opt.AllPlatforms || len(cmds[i].Platform) == 0) || (opt.PipelineOnly && !ref.IsPipeline(&cmds[i])) {
+						continue
+					}
 					if ref.FoldSubsequence(q, c07Text(&cmds[i])) {
-						t.Fatalf("query %q occurs in order in entry #%d %q but the fallback returned nothing (no threshold set)\n db=%v", q, i, c07Text(&cmds[i]), gen.BriefDB(cmds, 12))
+						t.Fatalf("query %q occurs in order in the eligible entry #%d %q but the fallback returned nothing (no threshold set); options=%v\n db=%v", q, i, c07Text(&cmds[i]), optBrief(opt), gen.BriefDB(cmds, 16))
 					}
 				}
 			}
